@@ -68,6 +68,22 @@ func cases(run *vf.Run) ([]json.RawMessage, error) {
 	out = append(out, vf.Spec(spec{Kind: "demo-F2", Seed: 102, Cfg: base}))
 	out = append(out, vf.Spec(spec{Kind: "demo-F3", Seed: 103, Cfg: base}))
 	out = append(out, vf.Spec(spec{Kind: "demo-F19", Seed: 119, Cfg: base}))
+	// directed shape: k whole WAL generations written and checkpointed unseen while litestream
+	// is down, each shorter than the one before (only the salts tell them apart)
+	nShape := 6
+	if run.Tier == "thorough" {
+		nShape = 60
+	}
+	for i := 0; i < nShape; i++ {
+		rng := rand.New(rand.NewSource(vf.SubSeed(run.Seed, "C04-shape", i)))
+		cfg := hist.RandomConfig(rng)
+		cfg.PageSize = []int{4096, 1024, 8192}[i%3]
+		cfg.MinCheckpointPageN = 1000
+		cfg.TruncatePageN = 0
+		cfg.MaxSyncLTXFiles = 0
+		d := []string{"restart-new-object", "close-open-same-object", "ipc-stop-start"}[i%3]
+		out = append(out, vf.Spec(spec{Kind: "shape-shrinking-generations", Seed: vf.SubSeed(run.Seed, "C04-shape-case", i), Cfg: cfg, Daemon: d == "ipc-stop-start", Dist: []string{d}}))
+	}
 	for i := 0; i < n; i++ {
 		rng := rand.New(rand.NewSource(vf.SubSeed(run.Seed, "C04", i)))
 		cfg := hist.RandomConfig(rng)
@@ -100,6 +116,9 @@ type world struct {
 	// snapAhead: at a moment local LTX state was lost, the replica held a file at
 	// level>=1 whose MaxTXID exceeded its highest level-0 TXID (known finding F19)
 	snapAhead bool
+	// forceShrinking: offline rounds have no writes before their checkpoint and each
+	// new WAL generation is shorter than the previous one
+	forceShrinking bool
 }
 
 func (w *world) scanL0() (max int, v string) {
@@ -203,6 +222,9 @@ func (w *world) ackCheck(tag string, mustAdvanceFrom int) bool {
 // each generation sized relative to the previous one.
 func (w *world) offlineActivity() error {
 	off := offKinds[w.rng.Intn(len(offKinds))]
+	if w.forceShrinking {
+		off = []string{"writes+FULL", "writes+RESTART", "writes+TRUNCATE"}[w.rng.Intn(3)]
+	}
 	if off == "none" {
 		w.shapes = append(w.shapes, "off:none")
 		return nil
@@ -210,6 +232,9 @@ func (w *world) offlineActivity() error {
 	rounds := 1
 	if strings.HasPrefix(off, "writes+") {
 		rounds = []int{1, 1, 2, 2, 3}[w.rng.Intn(5)]
+	}
+	if w.forceShrinking {
+		rounds = 2 + w.rng.Intn(2)
 	}
 	ref, _ := oracle.LiveWALFrames(w.DBPath + "-wal") // litestream's old cursor, then the previous generation's length
 	tables := []string{"t0", "t2", "t1"}
@@ -223,8 +248,16 @@ func (w *world) offlineActivity() error {
 			}
 		}
 		w.shapes = append(w.shapes, fmt.Sprintf("off:writes+%s/after:%s", mode, after))
-		// writes before the checkpoint
-		n := 1 + w.rng.Intn(3)
+		// writes before the checkpoint (none in some rounds: then the generation
+		// litestream last saw is not extended and only whole unseen generations
+		// separate its cursor from the live WAL)
+		n := w.rng.Intn(4)
+		if mode == "" && n == 0 {
+			n = 1
+		}
+		if w.forceShrinking {
+			n = 0
+		}
 		for i := 0; i < n; i++ {
 			ok, err := w.writeTable(tables[r%3])
 			if err != nil {
@@ -239,6 +272,9 @@ func (w *world) offlineActivity() error {
 		}
 		w.AppCheckpoint(mode)
 		// writes after the checkpoint go to another table so a later page image cannot hide a lost update
+		if w.forceShrinking {
+			after = "shorter"
+		}
 		target := 0
 		switch after {
 		case "shorter":
@@ -650,6 +686,7 @@ func runCase(run *vf.Run, raw json.RawMessage, dir string) *vf.Result {
 	}
 	defer e.Close()
 	w := &world{Env: e, s: s, rng: rng, res: res, l0Hash: map[int][32]byte{}}
+	w.forceShrinking = s.Kind == "shape-shrinking-generations"
 	if s.Daemon {
 		w.dmn, err = e.StartDaemon(nil)
 	} else {
@@ -678,7 +715,13 @@ func runCase(run *vf.Run, raw json.RawMessage, dir string) *vf.Result {
 		// prefix
 		for i := 0; i < 6+rng.Intn(10); i++ {
 			switch r := rng.Intn(10); {
-			case r < 5:
+			case r < 5 || w.forceShrinking: // the directed shape wants one long first generation
+				if w.forceShrinking {
+					if _, err := e.AppWriteKind("ins-multi"); err != nil {
+						return herr(err)
+					}
+					break
+				}
 				if _, err := e.AppWrite(); err != nil {
 					return herr(err)
 				}
